@@ -77,6 +77,7 @@ func (s Status) String() string {
 }
 
 type RunResult struct {
+	Probed     []int // sizes taken from code-derived thresholds (vfProbe) on this path
 	Status     Status
 	Msg        string
 	Trace      []Decision
@@ -176,6 +177,7 @@ type Machine struct {
 
 	snapshots [][]snapCell
 	logs      []string
+	poolMode  int // 1: sync.Pool as a LIFO cache (vfSetPoolMode)
 	mapOrder  int
 	mapFlip   int
 	sched     []SchedEntry
